@@ -1,10 +1,15 @@
 import VerifModel.Base.Proto
 import VerifModel.Model.Data
 import VerifModel.Model.DataState
+import VerifModel.Spec.DataCoord
 /-
   Driver ops for the dataset model (C01–C04, C14, C18).
 
     data <cfg> <inputs> <reqs>
+    specdata <cfg> <inputs> <reqs>     the coordinate-based SPECIFICATION (Spec/DataCoord.lean) on the same
+                                       encoding; `HYP` if the dataset is outside the hypothesis of
+                                       `getScores_refines` (arrays of the declared shape; cannot happen
+                                       with this encoding)
 
   cfg    = `k=v;k=v…` or `-`;  keys: times leads dates tods l lx lat lon elev obsrange (ranges `lo:hi`),
            clim=1 (the last input is the climatology), div=1
@@ -66,18 +71,20 @@ def leadDay (l : XR) : XR := match l with
   | .fin q => .fin ((q / 24).floor : Int)
   | x => x
 
-/-- axis name + slice index → selector (data.py `_apply_axis`) -/
-def selOf (D : DataS) (axis : String) (k : Nat) : Option Sel :=
+/-- axis name + slice index → selector (data.py `_apply_axis`), from the verified times and lead times -/
+def selOfDims (times leads : List XR) (axis : String) (k : Nat) : Option Sel :=
   match axis with
   | "all" => some .all
   | "no" | "threshold" | "obs" | "fcst" => some .none
   | "time" => some (.time k)
   | "location" | "lat" | "lon" | "elev" => some (.loc k)
-  | "leadtime" => some (.leads (groupIdx D.leads k))
-  | "leadtimeday" => some (.leads (groupIdx (D.leads.map leadDay) k))
-  | "day" => some (.times (groupIdx (D.times.map dayStart) k))
-  | "timeofday" => some (.times (groupIdx (D.times.map hourOfDay) k))
+  | "leadtime" => some (.leads (groupIdx leads k))
+  | "leadtimeday" => some (.leads (groupIdx (leads.map leadDay) k))
+  | "day" => some (.times (groupIdx (times.map dayStart) k))
+  | "timeofday" => some (.times (groupIdx (times.map hourOfDay) k))
   | _ => none
+
+def selOf (D : DataS) (axis : String) (k : Nat) : Option Sel := selOfDims D.times D.leads axis k
 
 def showCols (cols : List Vec) : String := ";".intercalate (cols.map showVec)
 
@@ -102,6 +109,31 @@ def runData (cfg inputs reqs : String) : Option String := do
       | .ok D =>
         let head := s!"T={showVec D.times};L={showVec D.leads};X={showVec (D.locs.map (·.id))}"
         some (" | ".intercalate (head :: (splitNE reqs ";").map (runReq D)))
+
+/-- one request answered by the specification -/
+def runSpecReq (scored : List Input) (c : Cfg) (d : Spec.DataCoord.Dims) (s : String) : String :=
+  match s.splitOn "@" with
+  | [fs, i, axis, k] =>
+    match i.toNat?, selOfDims d.times d.leads axis (k.toNat?.getD 0) with
+    | some i, some sel =>
+      match Spec.DataCoord.specScores scored c { fields := fs.splitOn "+", input := i, sel := sel } with
+      | .ok cols => showCols cols
+      | .error _ => "ERR"
+    | _, _ => "ERR bad-req"
+  | _ => "ERR bad-req"
+
+/-- the specification on the encoding of the `data` op -/
+def runSpecData (cfg inputs reqs : String) : Option String := do
+      let ins ← (splitNE inputs "#").mapM parseInput?
+      let hasClim := (splitNE (if cfg == "-" then "" else cfg) ";").any (· == "clim=1")
+      let (scored, clim) := if hasClim then (ins.dropLast, ins.getLast?) else (ins, none)
+      let c ← parseCfg? cfg clim
+      if !(Spec.DataCoord.allInputs scored c).all Spec.DataCoord.wfInput then some "HYP"
+      else match Spec.DataCoord.specDims scored c with
+      | none => some "ERR init"
+      | some d =>
+        let head := s!"T={showVec d.times};L={showVec d.leads};X={showVec d.locs}"
+        some (" | ".intercalate (head :: (splitNE reqs ";").map (runSpecReq scored c d)))
 
 def parseReq? (D : DataS) (s : String) : Option Req :=
   match s.splitOn "@" with
@@ -132,6 +164,7 @@ def handle (args : List String) : Option String :=
   match args with
   | ["data", cfg, inputs, reqs] => runData cfg inputs reqs
   | ["datahist", cfg, inputs, reqs] => runHist cfg inputs reqs
+  | ["specdata", cfg, inputs, reqs] => runSpecData cfg inputs reqs
   -- permutation invariance is a theorem about the model (Proofs/C02.lean)
   | ["dataperm", _, _, _, _] => some "same"
   -- the text-file path must give what the in-memory path gives
